@@ -25,6 +25,7 @@ import numpy as np
 from ..core import monitor
 from ..core.engine import Inapplicable, seed_lib_rng
 from ..core.world import World, pick, swarm_weights
+from ..worlds import amplifiers
 from ..worlds import files as fw
 
 # fixed budgets (measured once on the unchanged tree with >= 20x margin; never recalibrated at run time)
@@ -108,6 +109,12 @@ def gltf_unbacked_bytes(files, main):
         return best
     except Exception:
         return 0
+
+
+# payload format -> the file type its documents are loaded as
+FT_OF = {"stl_ascii": "stl", "ply_ascii": "ply", "obj_mtl": "obj", "glb": "gltf"}
+# doubling experiments that reproduce a recorded finding (none so far)
+SCALING_FINDINGS = {}
 
 
 def budget_steps(n):
@@ -642,6 +649,10 @@ class C20(World):
             elif cfg["fmt"] in AMPLIFIED and u > 0.9:
                 kind = "amplifier"
             ops.append({"op": "attempt", "fault": self._gen_fault(rng, kind, cfg["fmt"]), "route": rng.choice(cfg["routes"]), "transport": rng.choice(["bytesio", "simfile", "path"]), "rs": rng.randrange(2**31)})
+        fams = [k for k, (ft_, _) in amplifiers.LINEAR.items() if ft_ == FT_OF.get(cfg["fmt"], cfg["fmt"])]
+        if fams and rng.random() < 0.06:
+            # the doubling experiment: n, 2n and 4n independent trivial items
+            ops.append({"op": "scaling", "family": rng.choice(fams), "n": rng.choice([60, 100, 150, 250]), "route": rng.choice(cfg["routes"]), "rs": rng.randrange(2**31)})
         ops.append({"op": "valid_after", "rs": rng.randrange(2**31)})
         return {"config": cfg, "ops": ops}
 
@@ -673,6 +684,8 @@ class C20(World):
                                 self._attempt(dict(op, fault=dict(op["fault"], at=at)), cfg, st, scratch, mon, ctx)
                         else:
                             self._attempt(op, cfg, st, scratch, mon, ctx)
+                    elif op["op"] == "scaling":
+                        self._scaling(op, cfg, scratch, mon, ctx)
                     elif op["op"] == "valid_after":
                         self._valid_after(cfg, st, scratch, mon, ctx)
                 except Inapplicable:
@@ -870,6 +883,51 @@ class C20(World):
             ctx.count("probe:path-load-opened-nothing")
         if transport == "path":
             ctx.count("probe:self-opened-files", res["opened"])
+
+    def _scaling(self, op, cfg, scratch, mon, ctx):
+        """'Within a bound proportional to the input size', asked directly: documents of n, 2n and 4n independent trivial items.
+        Simulated time is a count of executed lines, so for a loader whose cost is proportional to its input the second increment
+        is twice the first, exactly; with a quadratic term it tends to four times. More than 2.6 times (plus a slack of 20 000 lines) fails."""
+        ft, build = amplifiers.LINEAR[op["family"]]
+        n = int(op["n"])
+        steps = []
+        route = op["route"] if ft not in ("dxf", "svg") else "load_path"
+        try:
+            # a first small document, not measured: whatever the loader imports or builds once per process is paid here
+            small = build(8)
+            self._quiet(lambda: fw.load_payload({"model." + ft: small}, "model." + ft, ft, route=route, transport="bytesio", scratch=scratch))
+        except Exception:
+            pass
+        for k in (n, 2 * n, 4 * n):
+            doc = build(k)
+            main = "model." + ft
+            res = mon.run(lambda: self._quiet(lambda: fw.load_payload({main: doc}, main, ft, route=route, transport="bytesio", scratch=scratch)[0]), 40 * budget_steps(len(doc)))
+            ctx.steps_sim += res["steps"]
+            ctx.count("op:scaling-load")
+            if res["outcome"] == "step-budget":
+                ctx.fail("time", f"{ft}-scaling", f"{op['family']} with {k} items ({len(doc)} bytes) via {op['route']}: {res['steps']} steps and not finished")
+            if res["outcome"] == "base-exception":
+                ctx.fail("outcome", f"{ft}-scaling", f"{op['family']} with {k} items: raised {type(res['exc']).__name__}")
+            steps.append(res["steps"])
+        d1, d2 = steps[1] - steps[0], steps[2] - steps[1]
+        ctx.count("check:scaling")
+        ctx.reach(ft, "scaling", op["family"], op["route"], "superlinear" if d2 > 2.6 * d1 + 20000 else "linear")
+        ctx.event("scaling", op["family"], n, d2 > 2.6 * d1 + 20000)
+        if d2 > 2.6 * d1 + 20000:
+            fid = SCALING_FINDINGS.get(op["family"])
+            if fid and ctx.is_known(fid) and d2 <= 4.4 * d1 + 20000:
+                ctx.finding(fid, f"{op['family']} n={n}: {steps}")
+                return
+            ctx.fail("time", f"{ft}-scaling", f"{op['family']} via {op['route']}: {n}, {2 * n}, {4 * n} items cost {steps} steps: the second increment is {d2 / max(d1, 1):.2f} times the first (proportional cost gives 2.00)")
+
+    @staticmethod
+    def _quiet(fn):
+        old = (sys.stdout, sys.stderr)
+        sys.stdout = sys.stderr = _DEVNULL
+        try:
+            return fn()
+        finally:
+            sys.stdout, sys.stderr = old
 
     def _valid_after(self, cfg, st, scratch, mon, ctx):
         """After the faults a valid file still loads to the right content in the same process."""
